@@ -3,7 +3,7 @@
   blocks it holds, in any interleaving: no panic, every free of a held block succeeds, and the
   blocks held by the threads (and by one thread) never overlap.
 -/
-import LLFreeV.Proofs.OwnToggle2
+import LLFreeV.Proofs.OwnSearch
 namespace LLFree
 open Prog
 
@@ -31,6 +31,7 @@ def HeldOk (g : Geom) : List Blk → Prop
 /-- commands of a well-behaved thread: allocate a block at a position; free the `idx`-th held block -/
 inductive BCmd where
   | alloc (b : Blk)
+  | search (h startRow order : Nat)
   | free (idx : Nat)
 
 /-- the thread program; a failing free of a held block is a panic (it must never happen) -/
@@ -41,6 +42,13 @@ def runCmds (g : Geom) : List BCmd → List Blk → Prog (List Blk)
       let r ← Bitfield.toggle g b.h b.i b.order false
       match r with
       | .ok _ => runCmds g rest (b :: held)
+      | .error _ => runCmds g rest held
+    else runCmds g rest held
+  | .search h startRow order :: rest, held =>
+    if order ≤ g.hugeOrder then do
+      let r ← Bitfield.setFirstZeros g h startRow order
+      match r with
+      | .ok off => runCmds g rest (⟨h, off, order⟩ :: held)
       | .error _ => runCmds g rest held
     else runCmds g rest held
   | .free idx :: rest, held =>
@@ -142,6 +150,30 @@ theorem runCmds_safe {g : Geom} (okg : GeomOk g) (cmds : List BCmd) :
           obtain ⟨_, h1⟩ := hr
           rw [h1]; exact ih held hok
       · rw [if_neg hb]; exact ih held hok
+    | search h startRow order =>
+      unfold runCmds
+      by_cases ho : order ≤ g.hugeOrder
+      · rw [if_pos ho]
+        apply SafeR.bind _ _ _ (setFirstZeros_safe okg (ownedBy g held) h startRow order ho)
+        intro r o hr
+        cases r with
+        | ok off =>
+          obtain ⟨hal, hfit, h1, h2⟩ := hr
+          have hpos : 0 < 2 ^ order := Nat.pos_of_ne_zero (by simp)
+          have hoff : off % g.hugeFrames = off := Nat.mod_eq_of_lt (by omega)
+          have hstart : (⟨h, off, order⟩ : Blk).start g = h * g.hugeFrames + off := by
+            simp only [Blk.start, hoff]
+          have e : o = ownedBy g (⟨h, off, order⟩ :: held) := by rw [h1, ownedBy_cons, hstart]
+          rw [e]
+          refine ih (⟨h, off, order⟩ :: held) ⟨⟨ho, by simp only [hoff]; exact hal⟩, ?_, hok⟩
+          intro f hf
+          unfold Blk.has at hf
+          rw [hstart] at hf
+          exact h2 f hf
+        | error e =>
+          obtain ⟨_, h1⟩ := hr
+          rw [h1]; exact ih held hok
+      · rw [if_neg ho]; exact ih held hok
     | free idx =>
       unfold runCmds
       cases hg : held[idx]? with
